@@ -201,7 +201,14 @@ func reopenVerdict(api string, wo wOpts, roots []cid.Cid, img []byte, acked, att
 			if idRule(wo, b.C) {
 				continue
 			}
-			if base > len(f) || !bytes.Contains(f[base:], sectionOf(b)) {
+			// a put acknowledged as "already stored" lives in the section of the block that carries its key
+			found := false
+			for _, a := range attempted {
+				if sameKey(wo, a.C, b.C) && bytes.Equal(a.D, b.D) && base <= len(f) && bytes.Contains(f[base:], sectionOf(a)) {
+					found = true
+				}
+			}
+			if !found {
 				okAll = false
 			}
 		}
@@ -376,6 +383,15 @@ func famC06(g *Gen, o *Out, n int, thorough bool) {
 				ih, _ := mh.Sum(d, mh.IDENTITY, -1)
 				bs[at] = Blk{cid.NewCidV1(cid.Raw, ih), d}
 			}
+		}
+		if c%3 == 2 {
+			// two blocks that share a multihash under different CIDs (the same bytes as raw and as dag-cbor):
+			// with UseWholeCIDs both are stored and both must be there again after a crash and a reopen
+			bs[2] = Blk{cid.NewCidV1(cid.DagCBOR, bs[1].C.Hash()), bs[1].D}
+			if bs[1].C.Prefix().Codec == cid.DagCBOR {
+				bs[2] = Blk{cid.NewCidV1(cid.Raw, bs[1].C.Hash()), bs[1].D}
+			}
+			wo.whole = c%6 == 2 || wo.whole
 		}
 		o.HashBlocks(bs)
 		roots := g.Roots(bs[:1])
